@@ -152,6 +152,11 @@ func c11AllDocs() []c11Doc {
 		// a fragment that uses a variable, shared by an operation that defines the variable and one that does not
 		c11Doc{c11Base: c11Base{Name: "fragment-variable-defined-by-one-operation", Calls: []c11Call{{"A", map[string]interface{}{"n": "x"}}, {"B", nil}, {"A", nil}, {"C", map[string]interface{}{"n": 3}}}},
 			Text: "query A($n: String) { a { ...F } } query B { a { ...F } kids { ...F } } query C($n: Int) { a { pick(i: $n) ...F } } fragment F on A { tri(a: $n) pick(ss: [$n]) id }"},
+		// list and object literals that hold a variable in some places and constants in others (first, middle, last member; a
+		// variable one level down in a member that is not the last): what is constant about a literal is decided per member
+		c11Doc{c11Base: c11Base{Name: "literals-half-variable", Calls: []c11Call{{"A", map[string]interface{}{"n": "x", "m": 1}}, {"A", map[string]interface{}{"n": "y", "m": 2}}, {"A", nil}, {"B", nil}, {"B", map[string]interface{}{"m": 9}}}},
+			Text: "query A($n: String = \"dn\", $m: Int = 5) { a { ...F } p1: pick(ss: [$n, \"lit\"]) p2: pick(ss: [\"lit\", $n]) p3: pick(ss: [\"l\", $n, \"r\"]) p4: pick(fs: [{min: $m}, {min: 0}]) p5: pick(in: {min: 1, sub: {min: $m}}) p6: pick(ids: [$m, 10]) } " +
+				"query B($m: Int = 7) { a { ...F } p4: pick(fs: [{min: $m}, {min: 0}]) p6: pick(ids: [$m, 10]) } fragment F on A { pick(fs: [{min: $m, sub: {min: 3}}, {min: 2}]) }"},
 		c11Doc{c11Base: c11Base{Name: "literals-of-another-kind", Calls: []c11Call{{"", nil}, {"", map[string]interface{}{}}}}, Text: c11KindsText(), Own: true},
 	)
 }
